@@ -357,3 +357,44 @@ def fresh_random(f, o):
     gt = f.bbs[gens[0][2]]["t"]
     pg = vf.producers(f, gt["a"][0])
     return bool(pg) and all(y[0] == "call" and y[1] == "rand::rngs::thread::thread_rng" for y in pg)
+
+
+def flow_tied_entry(ctx, rid):
+    """update_stored_tx(is_invoiced) picks a TxSent entry iff !is_invoiced, a TxReceived entry iff is_invoiced, and fails without one."""
+    run = ctx.run
+    us = ctx.fn(c.LW + "internal::tx::update_stored_tx")
+    if us:
+        TLT_ = c.LW + "types::TxLogEntryType"
+        ip = c.param(us, "is_invoiced", "bool")
+        gi = cfg.local_guard(us, ip) if ip is not None else None
+        cmpx = {}
+        for x in cfg.comparisons(us):
+            if x.op != "Eq":
+                continue
+            pl, pr = vf.producers(us, x.l), vf.producers(us, x.r)
+            for a, b_ in ((pl, pr), (pr, pl)):
+                if vf.has_field(a, c.LW + "types::TxLogEntry", "tx_type"):
+                    for lit in ("TxSent", "TxReceived"):
+                        if ("agg", TLT_, lit) in b_:
+                            cmpx[lit] = x
+        picks = [b for b, bb in enumerate(us.bbs) if not bb["cleanup"] for st in bb["s"] if st["k"] == "a" and st["r"]["k"] == "agg" and st["r"].get("adt") == "core::option::Option" and st["r"].get("var") == "Some" and us.locals[st["d"][0]]["ty"].startswith("core::option::Option<" + c.LW + "types::TxLogEntry")]
+        if gi is None or not gi.ok or not gi.fail or len(cmpx) != 2 or not picks:
+            run.error("%s: update_stored_tx anchors not found (is_invoiced switch %s, type comparisons %s, selections %d)" % (rid, bool(gi and gi.ok), sorted(cmpx), len(picks)))
+        else:
+            for b in picks:
+                sent = cfg.must_pass(us, cmpx["TxSent"].true_edges, {b})[0] and cfg.must_pass(us, gi.fail, {b})[0]
+                recv = cfg.must_pass(us, cmpx["TxReceived"].true_edges, {b})[0] and cfg.must_pass(us, gi.ok, {b})[0]
+                h = sent != recv
+                run.instance(rid, {"fn": "update_stored_tx", "obligation": "entry selected only as (TxSent and !is_invoiced) or (TxReceived and is_invoiced)", "site": c.site_of(us, b), "as": "send" if sent else ("invoice" if recv else "?")}, held=h)
+                if not h:
+                    run.finding(Finding(rid, us.id, "the log entry to finalize is selected without tying its type to the flow (a reply re-labelled Standard2 <-> Invoice2 would be finalized in the other flow)", site=c.site_of(us, b)))
+        # and no entry => error
+        h = False
+        for l in range(us.argc + 1, len(us.locals)):
+            if us.locals[l].get("u") and us.locals[l]["ty"].startswith("core::option::Option<" + c.LW + "types::TxLogEntry"):
+                go = cfg.local_guard(us, l, kind="option")
+                if go.ok and cfg.must_pass(us, go.ok, cfg.return_blocks(us), cut_nodes=cfg.error_return_blocks(us))[0]:
+                    h = True
+        run.instance(rid, {"fn": "update_stored_tx", "obligation": "Ok only if an entry was selected"}, held=h)
+        if not h:
+            run.finding(Finding(rid, us.id, "update_stored_tx can return Ok without having found the entry of this flow", site=us.loc()))
